@@ -54,6 +54,8 @@ def aero_cfg(draw, offplane=False):
         v=draw(S.fl(10.0, 250.0, 100.0)),
         rho=draw(S.fl(0.1, 1.5, 1.0)),
         cg=[draw(S.fl(-3.0, 3.0, 0.0)), 0.0, draw(S.fl(-2.0, 2.0, 0.0))],
+        # the symmetry flag as a numpy boolean (what `mesh[:, :, 1].max() <= 0` gives) instead of a Python bool
+        numpy_flags=draw(st.sampled_from([False, False, True])),
     )
     if offplane:
         d["gap"] = draw(S.fl(0.05, 3.0, 1.0))
@@ -84,14 +86,17 @@ def aero_verdict(desc):
     b = max(float(np.max(np.abs(m[:, :, 1]))) for m in halves)
     h = max(float(np.max(m @ n)) for m in halves) + desc["clear"] * b
     ground = desc["ground"]
-    sh = [aero_surface("s%d" % k, m, True, groundplane=ground, **_surf_kw(desc["opts"][k])) for k, m in enumerate(halves)]
+    T, F = (np.bool_(True), np.bool_(False)) if desc.get("numpy_flags") else (True, False)
+    if desc.get("numpy_flags"):
+        out.label("symmetry_flag=numpy.bool_")
+    sh = [aero_surface("s%d" % k, m, T, groundplane=ground, **_surf_kw(desc["opts"][k])) for k, m in enumerate(halves)]
     if not ground:
         for s in sh:
             del s["groundplane"]
     ph = aero_direct(sh, fl, compressible=desc["compressible"], height=h if ground else None, t_over_c=tocs)
     ph.run_model()
     fulls = [full_from_half(m) for m in halves]
-    sf = [aero_surface("s%d" % k, m, False, **_surf_kw(desc["opts"][k])) for k, m in enumerate(fulls)]
+    sf = [aero_surface("s%d" % k, m, F, **_surf_kw(desc["opts"][k])) for k, m in enumerate(fulls)]
     tf = list(tocs)
     if ground:
         sf += [aero_surface("i%d" % k, _reflect(m, alpha, h), False) for k, m in enumerate(fulls)]
@@ -221,6 +226,7 @@ def as_cfg(draw):
         exact=draw(st.booleans()),
         ref_axis_pos=draw(st.sampled_from([0.25, 0.0, 0.5, 1.0])),
         twist=draw(S.fl(-3.0, 3.0, 0.0)),
+        numpy_flags=draw(st.sampled_from([False, False, True])),
     )
     return d
 
@@ -280,8 +286,11 @@ def as_verdict(desc):
         flh.update(point_masses=desc["masses"][:nm], point_mass_locations=locs, engine_thrusts=desc["thrust"][:nm])
         mir = [[x, -y, z] for x, y, z in locs]
         flf.update(point_masses=desc["masses"][:nm] * 2, point_mass_locations=locs + mir, engine_thrusts=desc["thrust"][:nm] * 2)
-    sh = _as_surface(desc, half, True, nm)
-    sf = _as_surface(desc, full, False, 2 * nm)
+    T, F = (np.bool_(True), np.bool_(False)) if desc.get("numpy_flags") else (True, False)
+    if desc.get("numpy_flags"):
+        out.label("symmetry_flag=numpy.bool_")
+    sh = _as_surface(desc, half, T, nm)
+    sf = _as_surface(desc, full, F, 2 * nm)
     from oasv.models import run_coupled
 
     ph = aerostruct_problem([sh], flh, compressible=desc["compressible"])
